@@ -40,6 +40,25 @@ func (o *objectIncludeStrategy) evaluate(m *MethodEvaluator) error {
 		base.SeparateNameSpaces(nextT.ToString())
 
 	parentFrame = base.CalculateFrame(parentFrame, parentNamespace)
+
+	// an unqualified module name is looked for in the namespaces enclosing the
+	// class body, innermost first, before the top level
+	if parentFrame == "" {
+		for frame := m.ctx.GetFrame(); frame != ""; {
+			if base.IsClassDefinedIn(frame, parentClass) {
+				parentFrame = frame
+				break
+			}
+
+			idx := strings.LastIndex(frame, "::")
+			if idx < 0 {
+				break
+			}
+
+			frame = frame[:idx]
+		}
+	}
+
 	var parentNode base.ClassNode
 
 	if m.method == "extend" {
